@@ -345,12 +345,21 @@ def execute(prop: Prop, tier: str, seed: int) -> int:
         from concurrent.futures import ThreadPoolExecutor
 
         slices_ = [sl for sl in prop.slices if tier in sl.tiers]
-        n = max(1, len(slices_))
-        w = max(2, 16 // min(n, 4))
-        with ThreadPoolExecutor(max_workers=min(n, 4)) as ex:
-            results = list(ex.map(lambda sl: model_check(run, sl, w), slices_))
-        for sl, res in zip(slices_, results):
-            run_slice(run, sl, res)
+        # slices are explored and replayed in groups (4 at a time in the quick tier, 2 in the thorough tier, whose
+        # exhaustive slices hold hundreds of thousands of vectors each): the vectors of a group are released before
+        # the next group is model-checked, which bounds the memory of a run by its largest group
+        g = 4 if tier == "quick" else 2
+        for i in range(0, max(1, len(slices_)), g):
+            group = slices_[i:i + g]
+            if not group:
+                break
+            w = max(2, 16 // len(group))
+            with ThreadPoolExecutor(max_workers=len(group)) as ex:
+                results = list(ex.map(lambda sl: model_check(run, sl, w), group))
+            for sl, res in zip(group, results):
+                run_slice(run, sl, res)
+                res.sampler = None
+            del results
         if prop.extra:
             prop.extra(run)
     except tlc.MachineryError as exc:
